@@ -21,6 +21,7 @@ RULE = ("full-grammar terms (depth <= 5 / 7) x alias maps whose keys are drawn f
         "to a lambda variable); targets identifiers / paths / calls; plus identity maps, "
         "caller-supplied lexer/parser, and fresh-name bijection + inverse. distinct = "
         "distinct (term text, map); non-trivial = at least one key matches a field reference")
+RULE += (" " + 'Also: namespaced homonyms of lambda variables, namespaced alias keys, chained entries (K1 -> T with T/x -> ...).')
 ASSUMPTIONS = ["maps with one key a prefix of another are not generated (priority left open)",
                "reference substitution vpmon/ref/subst.py is trusted"]
 SHARDS = {"quick": 12, "thorough": 16}
